@@ -780,10 +780,12 @@ pub fn view(node: &Node, durable_only: bool) -> BTreeMap<String, String> {
             let key = format!("chan.{}", hex::encode(id.inner()));
             match &*slot {
                 ChannelSlot::Stub(s) => {
-                    m.insert(key, format!("stub blockheight={}", s.blockheight));
+                    m.insert(key, format!("stub blockheight={} id0={} funding={}", s.blockheight, hex::encode(s.id0.inner()), s.keys.pubkeys().funding_pubkey));
                 }
                 ChannelSlot::Ready(c) => {
                     m.insert(key.clone(), serde_json::to_string(&c.enforcement_state).unwrap());
+                    // what the channel signs with and for: setup, ids and the channel's own basepoints
+                    m.insert(format!("{}.setup", key), format!("{:?} id0={} id={:?} keys={:?}", c.setup, hex::encode(c.id0.inner()), c.id.as_ref().map(|i| hex::encode(i.inner())), c.keys.pubkeys()));
                     m.insert(format!("{}.monitor", key), format!("forget_seen={}", c.monitor.forget_seen()));
                 }
             }
